@@ -66,6 +66,7 @@ Lemma import_message_signals_plain_enum : forall env es0 st mpos dm st' sigs,
 Proof.
   intros env es0 st mpos dm st' sigs Hn Hev Hc Hrv H. unfold import_message_signals in H.
   fold (sorted_signals dm) in H. rewrite (no_muxor_filter dm Hn) in H.
+  destruct (existsb _ _); [discriminate|].
   apply (plain_signals_fold_enum env es0) in H; try assumption.
   destruct H as [_ [_ [new [Hs Hf]]]]. cbn [app] in Hs. subst sigs.
   clear - Hf. revert Hf. generalize 0 as i. generalize (sorted_signals dm) as l. intros l i. revert i new.
